@@ -178,6 +178,15 @@ class Builder(object):
         self.scans.append(loop)
 
     def assign(self, tgt, val, s, guards):
+        if isinstance(tgt, ast.Name) and isinstance(val, ast.Name) and any(e['target'] == val.id for e in self.extractions):
+            # `copy = high_copy`: the extracted particles under another name - what is done to `copy` from here on is done to that extraction
+            for e in reversed(self.extractions):
+                if e['target'] == val.id:
+                    self.extractions.remove(e)
+                    self.extractions.append(e)
+                    e['target'] = tgt.id
+                    break
+            return
         if isinstance(tgt, ast.Name):
             if isinstance(val, ast.Attribute) and val.attr == 'length':
                 c = self.coord_of(val.value)
@@ -534,6 +543,49 @@ def rule_order(chk, cls, base):
                    detail_ok='%smax - %smin' % (ax, ax))
 
 
+def rule_indices_current(chk, cls):
+    """an index list picked from the coordinates of an array is only good for that array as it was: between the loop that fills a list and the extract_particles call that
+    consumes it nothing may re-order, grow or shrink the array it indexes (append_parray re-aligns: real particles first, so with mixed tags - periodic ghosts among the copied
+    particles - positions change)"""
+    MUT = ('append_parray', 'extend', 'remove_particles', 'remove_tagged_particles', 'align_particles', 'add_particles', 'resize')
+    n = 0
+    for fname in ('_create_ghosts_periodic', '_create_ghosts_mirror'):
+        fn = M.find_func(cls, fname)
+        g = C.build_cfg(fn)
+
+        def stmts(pred):
+            return [nd for nd in g.nodes if nd.ast is not None and isinstance(nd.ast, (ast.Expr, ast.Assign, ast.AugAssign, ast.AnnAssign)) and pred(nd.ast)]
+        ext = []
+        for nd in stmts(lambda a: True):
+            for c in M.calls(nd.ast):
+                if isinstance(c.func, ast.Attribute) and c.func.attr == 'extract_particles' and isinstance(c.func.value, ast.Name) and c.args and isinstance(c.args[0], ast.Name):
+                    ext.append((nd, c.func.value.id, c.args[0].id))
+        for nd, recv, lst in ext:
+            fills = [x.id for x in g.nodes if x.ast is not None and isinstance(x.ast, (ast.For, ast.While)) and
+                     any(isinstance(c.func, ast.Attribute) and c.func.attr == 'append' and compact(c.func.value) == lst for c in M.calls(x.ast))]
+            resets = [x.id for x in stmts(lambda a: any(isinstance(c.func, ast.Attribute) and c.func.attr == 'reset' and compact(c.func.value) == lst for c in M.calls(a)))]
+            muts = [x for x in stmts(lambda a: any(isinstance(c.func, ast.Attribute) and c.func.attr in MUT and compact(c.func.value) == recv for c in M.calls(a)))]
+            rebinds = [x.id for x in stmts(lambda a: isinstance(a, ast.Assign) and any(isinstance(t_, ast.Name) and t_.id == recv for t_ in a.targets))]
+            if not fills:
+                continue
+            bad = []
+            for m_ in muts:
+                if m_.id == nd.id:
+                    continue
+                after_fill = any(m_.id in g.reachable(f_, avoid=set(rebinds)) for f_ in fills)
+                reaches = nd.id in g.reachable(m_.id, avoid=set(fills) | set(resets) | set(rebinds))
+                if after_fill and reaches:
+                    bad.append(m_.ast.lineno)
+            n += 1
+            chk.decide(not bad, 'indices-current-when-used', '%s:%s.extract_particles(%s)@%d' % (fname, recv, lst, sum(1 for e_ in ext if e_[1] == recv and e_[2] == lst and e_[0].id <= nd.id)),
+                       node=nd.ast, file=NB, func=fname,
+                       detail_bad='`%s` was filled from the coordinates of `%s`, but before it is used here `%s` is changed at line(s) %s (append_parray re-aligns the array: real particles '
+                                  'first): when the copied particles carry mixed tags - periodic ghosts next to real particles, i.e. a periodic axis together with two mirrored ones - the '
+                                  'indices point at other particles, so some images are missing and others are made of the wrong particle' % (lst, recv, recv, sorted(set(bad))),
+                       detail_ok='nothing changes `%s` between the loop that fills `%s` and this extraction' % (recv, lst))
+    chk.floor('extractions through an index list', n, 12)
+
+
 def rule_wrap(chk, cls):
     """_box_wrap_periodic: for every particle and every periodic axis the coordinate ends up as `c + T if c < min`, then `- T if that > max`, and untouched on a
     non-periodic axis.  Decided by value numbering: the body of the particle loop is evaluated symbolically (helper functions of the module inlined, branches
@@ -621,6 +673,7 @@ def main(chk):
     base = M.find_class(t, 'DomainManagerBase')
     rule_order(chk, cls, base)
     rule_builders(chk, cls)
+    rule_indices_current(chk, cls)
     rule_wrap(chk, cls)
     rule_cell_size(chk, cls)
     # the previous round's ghosts are removed with ParticleArray.remove_tagged_particles, which must look at every particle (the array
